@@ -23,14 +23,17 @@ type zzSrc struct {
 	prog   []zzIns
 	labels map[string]int
 	entry  string
+	cells  []uint64       // ROM data cells in declaration order (they follow the code in the ROM)
+	vars   map[string]int // variable name -> index of its first cell
 }
 
 // zzC05Parse reads the source form the way its documentation describes it: sections, labels on their own
 // line (denoting the instruction that follows), the entry directive, macros without arguments.
 func zzC05Parse(src string) *zzSrc {
-	s := &zzSrc{labels: map[string]int{}}
+	s := &zzSrc{labels: map[string]int{}, vars: map[string]int{}}
 	macros := map[string][]zzIns{}
 	inMacro, inSection := "", false
+	inData := false
 	var pending []string
 	for _, raw := range strings.Split(src, "\n") {
 		line := strings.TrimSpace(raw)
@@ -48,11 +51,30 @@ func zzC05Parse(src string) *zzSrc {
 			continue
 		case f[0] == "%section":
 			inSection = len(f) > 2 && f[2] == ".romtext" // data sections hold no instructions
+			inData = len(f) > 2 && f[2] == ".romdata"
 			continue
 		case f[0] == "%endsection":
-			inSection = false
+			inSection, inData = false, false
 			continue
 		case f[0][0] == '%':
+			continue
+		}
+		if inData {
+			// "<name> [N:]db v, v, ..." : N repetitions of the listed bytes, one ROM cell each
+			if len(f) >= 3 && (f[1] == "db" || strings.HasSuffix(f[1], ":db")) {
+				rep := 1
+				if f[1] != "db" {
+					rep, _ = strconv.Atoi(strings.TrimSuffix(f[1], ":db"))
+				}
+				s.vars[f[0]] = len(s.cells)
+				rest := strings.TrimSpace(line[strings.Index(line, f[1])+len(f[1]):])
+				for k := 0; k < rep; k++ {
+					for _, v := range strings.Split(rest, ",") {
+						x, _ := zzC05Lit(strings.TrimSpace(v))
+						s.cells = append(s.cells, x)
+					}
+				}
+			}
 			continue
 		}
 		if strings.HasSuffix(f[0], ":") {
@@ -155,7 +177,14 @@ func (r *zzRef) exec(in zzIns, inputs []uint64) {
 	case "nop":
 	case "mov", "rset":
 		d := reg(0)
-		if len(in.a[1]) >= 2 && in.a[1][0] == 'i' && in.a[1][1] >= '0' && in.a[1][1] <= '9' {
+		if strings.HasPrefix(in.a[1], "rom:") {
+			// the address of a ROM variable: the data cells follow the code
+			off, ok := r.src.vars[strings.TrimPrefix(in.a[1], "rom:")]
+			if !ok {
+				r.ok = false
+			}
+			r.regs[d] = uint64(len(r.src.prog)+off) & r.mask
+		} else if len(in.a[1]) >= 2 && in.a[1][0] == 'i' && in.a[1][1] >= '0' && in.a[1][1] <= '9' {
 			r.regs[d] = inputs[zzPortNo(in.a[1])] // mov from an input: i2r or i2rw by the I/O mode, the same value
 		} else if s, isreg := zzIsReg(in.a[1]); isreg {
 			r.regs[d] = r.regs[s]
@@ -165,6 +194,14 @@ func (r *zzRef) exec(in zzIns, inputs []uint64) {
 				r.ok = false
 			}
 			r.regs[d] = v & r.mask
+		}
+	case "ro2rri":
+		// the ROM cell whose address is in the second register (only data cells: code words are not part of the source's meaning)
+		a := int(r.regs[reg(1)]) - len(r.src.prog)
+		if a < 0 || a >= len(r.src.cells) {
+			r.ok = false
+		} else {
+			r.regs[reg(0)] = r.src.cells[a] & r.mask
 		}
 	case "cpy":
 		r.regs[reg(0)] = r.regs[reg(1)]
